@@ -52,6 +52,8 @@ pub fn flags(src: &str) -> Option<Vec<Flag>> {
                 let kind = if next.is_some_and(|c| "*/+-|&=!<>?".contains(c)) { "operand" } else { kind };
                 // … or follows, in the same container, a call with a closure (the checker leaves the
                 // level "not expecting a result" after visiting the closure block)
+                // a flagged call that carries a closure is never the known "effect in an argument" class
+                let kind = if kind == "call" && src[s..e].contains("-> |") { "closure_call" } else { kind };
                 let before = src[..s].trim_end();
                 let line_start = before.rfind('\n').map_or(0, |i| i + 1);
                 let kind = if before.ends_with(',') && before[..before.len() - 1].trim_end().ends_with('}') && before[line_start..].contains("-> |") {
@@ -225,6 +227,11 @@ const JUNK: &[&str] = &[
     "set_semantic_meaning(.a, \"m\")",
     "match(\"a\", r'a')",
     "\"t {{ x }}\"",
+    // calls with closures that have effects, as statements (never to be flagged)
+    "map_values({\"a\": 1}) -> |v| { .zk = v; v }",
+    "filter([1, 2]) -> |_i, v| { .zj = v; true }",
+    "map_keys({\"a\": 1}) -> |k| { del(.b); k }",
+    "for_each({\"a\": 1}) -> |_k, v| { .zi = v }",
     // USED values built from literals, objects, operations and calls: nothing in them may be flagged
     ".zq = [{\"k\": 1}, 5]",
     ".zr = [.a == 1, \"always\"]",
